@@ -208,6 +208,92 @@ fn check(c: &Case, info: &mut CaseInfo) -> CheckResult {
     Ok(())
 }
 
+
+// ---------------------------------------------------------------------------------------------
+// graphs created locally by an init action that publishes further commands
+
+#[derive(Clone, Debug, Serialize, Deserialize)]
+pub struct NewGraphCase {
+    /// bodies of the commands the init action publishes after the init command (0..4)
+    pub extra: Vec<crate::world::Body>,
+    pub script: crate::scenario::Script,
+}
+
+fn new_graph_case() -> impl Strategy<Value = NewGraphCase> {
+    (prop::collection::vec(strategies::body(0), 0..5), crate::scenario::script_strategy())
+        .prop_map(|(extra, script)| NewGraphCase { extra, script })
+}
+
+fn check_new_graph(c: &NewGraphCase, info: &mut CaseInfo) -> CheckResult {
+    use crate::policy::{ActionScript, Publish};
+    // the world the action will create: init, then a chain of published commands
+    let mut w = World::with_init();
+    let mut parent = 0usize;
+    let mut pubs = Vec::new();
+    for b in &c.extra {
+        let mut bb = b.clone();
+        bb.poison = false;
+        bb.guard = 0;
+        let id = w.fresh_id(bb.id_hi ^ 0x1010);
+        let kind = Kind::Basic(u32::from(bb.prio % 3));
+        let payload = Payload {
+            guard: crate::world::Guard::None,
+            ops: bb
+                .ops
+                .iter()
+                .map(|(k, ks, v)| match k % 4 {
+                    0 | 1 => crate::world::FOp::Insert(crate::world::key_from(*ks), vec![*v]),
+                    2 => crate::world::FOp::Delete(crate::world::key_from(*ks)),
+                    _ => crate::world::FOp::Seq,
+                })
+                .collect(),
+            poison: false,
+        };
+        parent = w.push(id, kind, vec![parent], payload.clone());
+        pubs.push(Publish { id, kind, payload });
+    }
+    let mut rep = MemReplica::new_mem();
+    let gid = rep
+        .client
+        .new_graph(
+            &POLICY_BYTES,
+            ActionScript {
+                init: true,
+                dump: false,
+                publishes: pubs,
+            },
+            &mut rep.sink,
+        )
+        .map_err(|e| Failure::new("C10: new_graph failed", e.to_string()))?;
+    ensure!(
+        *gid.as_array() == init_id(),
+        "C10: the id of a newly created graph is not the id of its init command",
+        "new_graph returned {} for a graph whose init command is {} ({} commands published by the init action)",
+        gid,
+        crate::scenario::short(&init_id()),
+        c.extra.len() + 1
+    );
+    let listed = graph_listed(&mut rep)?;
+    ensure!(listed == vec![init_id()], "C10: the created graph's id is not the init command's id", "listed {listed:?}");
+    ensure!(rep.has_graph(), "C10: graph not retrievable under the init command's id", "");
+    let all: std::collections::BTreeSet<usize> = (0..w.len()).collect();
+    crate::txn::check_state(&mut rep, &w, &all, "after new_graph")?;
+    // a peer can receive the graph under the init command's id
+    let mut peer = MemReplica::new_mem();
+    let mut sc = c.script.clone();
+    sc.file = false;
+    sc.init_via_action = false;
+    crate::scenario::run_script(&mut peer, &w, &all, &sc, crate::scenario::Flags::default())?;
+    let a = rep.obs().map_err(|e| Failure::new("observation failed", e))?;
+    let b = peer.obs().map_err(|e| Failure::new("observation failed", e))?;
+    ensure!(a == b, "C01: creator and receiver of a graph disagree", "{a:?} vs {b:?}");
+    if !c.extra.is_empty() {
+        info.label("init_action_published_more_commands");
+        info.nontrivial();
+    }
+    Ok(())
+}
+
 pub fn run(ctx: &Ctx) -> ! {
     let mut rep = Report::new(ctx, "exploration");
     rep.explore(
@@ -220,6 +306,16 @@ pub fn run(ctx: &Ctx) -> ! {
         case,
         ctx.pick(6000, 200_000),
         check,
+    );
+    rep.explore(
+        "new_graph_by_action",
+        "graphs created locally with new_graph by an init action that publishes the init command followed by 0-4 further commands; \
+         the returned graph id, the listed graph id and the id the storage is retrievable under must be the init command's id, \
+         the committed state must match the model, and a peer must be able to receive the same commands into a graph of that id \
+         and agree with the creator; non-trivial = the init action published more than the init command",
+        new_graph_case,
+        ctx.pick(3000, 100_000),
+        check_new_graph,
     );
     rep.finish()
 }
